@@ -85,7 +85,18 @@ func genQuery(r *Rng, m *qMeta) []string {
 	G := m.Groups
 	small := !m.Big
 	for {
-		switch r.Intn(63) {
+		switch r.Intn(69) {
+		case 63, 64, 65:
+			// many functions per row at once, all of them valid: every worker is inside every one of them
+			return []string{fmt.Sprintf("SELECT id, %s FROM a;", exprList(r, r.Range(10, 18))), fmt.Sprintf("SELECT COUNT(*) FROM a WHERE LEN(STRING(%s)) + LEN(STRING(%s)) >= 0 OR TRUE;", c14Exprs[r.Intn(len(c14Exprs))], c14Exprs[r.Intn(len(c14Exprs))])}
+		case 66:
+			// keys that many rows of the target share: every worker finds matches for the same new record
+			return []string{"REPLACE INTO a (g, v) USING (g) VALUES (0, 1000), (1, 2000), (77, 1);", "SELECT * FROM a;", "REPLACE INTO a (id, g, v, s) USING (g, s) SELECT MIN(id), g, COUNT(*), s FROM a GROUP BY g, s;", "SELECT * FROM a;"}
+		case 67:
+			return []string{"REPLACE INTO a (s, v) USING (s) SELECT DISTINCT s, 5 FROM a WHERE s IS NOT NULL;", "REPLACE INTO b (g, w) USING (g) SELECT g, COUNT(*) FROM a GROUP BY g;", "SELECT * FROM a;", "SELECT * FROM b;"}
+		case 68:
+			// comma-separated FROM lists
+			return []string{"SELECT x.id, y.id FROM a x, b y WHERE x.id = y.id;", "SELECT COUNT(*) FROM a x, a y WHERE x.g = y.g AND x.id < y.id;", "SELECT id, (SELECT COUNT(*) FROM b y, b z WHERE y.g = a.g AND z.id = y.id) AS n FROM a;"}
 		case 57, 58, 59, 60, 61, 62:
 			// every built-in, aggregate and analytic function csvq knows, with column-valued
 			// arguments, on a table that several workers share (the statement may well
